@@ -635,6 +635,12 @@ class Inliner:
                                 self.inlined.append((fn.name, hfn.name))
                                 did = True
                                 continue
+                        # 3. a helper made of tests and returns only, called where no statement can be put (inside a comprehension, a lambda, a
+                        #    conditionally evaluated operand): substituted as a conditional expression
+                        self._did_guard = False
+                        st = self._subst_expr_helpers(st, cls, helpers, guard_form=True)
+                        if self._did_guard:
+                            did = True
                         out.append(st)
                     return out
                 fn.body = do_block(fn.body)
@@ -724,7 +730,22 @@ class Inliner:
                 break
         return out
 
-    def _subst_expr_helpers(self, st, cls, helpers):
+    def _guard_expr(self, block) -> Optional[ast.AST]:
+        """the value of a helper whose body is nothing but tests and returns (`if c: return A` / `return B`), as a conditional expression"""
+        if not block:
+            return None
+        st = block[0]
+        if isinstance(st, ast.Return) and st.value is not None:
+            return st.value
+        if isinstance(st, ast.If):
+            a = self._guard_expr(st.body)
+            b = self._guard_expr(st.orelse) if st.orelse else self._guard_expr(block[1:])
+            if a is None or b is None or (st.orelse and len(block) > 1):
+                return None
+            return ast.copy_location(ast.IfExp(test=st.test, body=a, orelse=b), st)
+        return None
+
+    def _subst_expr_helpers(self, st, cls, helpers, guard_form=False):
         inl = self
 
         class T(ast.NodeTransformer):
@@ -741,6 +762,10 @@ class Inliner:
                 key, recv = m
                 hfn, is_m, _ = helpers[key]
                 e = inl._expr_body(hfn)
+                if e is None and guard_form:
+                    e = inl._guard_expr(_body_without_doc(hfn))
+                    if e is not None:
+                        inl._did_guard = True
                 if e is None:
                     return node
                 binding = _bind(hfn, node, is_m, recv)
@@ -837,7 +862,70 @@ def _inline_local_predicates(tree: ast.Module, ref_locals: Optional[Dict[str, Se
     return n_done
 
 
+def _expand_star_tuples(tree: ast.Module) -> int:
+    """`T = (a, b, g())` ... `f(*T, x)` with T a local bound once to a tuple display and used only as `*T` in calls  ->  `__sa = g()` ...
+    `f(a, b, __sa, x)`.  Elements that are not constants or names bound once are evaluated once, where the tuple was built, into a
+    temporary - exactly what building the tuple did.  Behaviour-preserving; it makes the call inlinable / layout rules applicable."""
+    done = 0
+    for fn in [n for n in ast.walk(tree) if isinstance(n, _FUNCS)]:
+        binds: Dict[str, int] = {}
+        for a_ in ast.walk(fn.args):
+            if isinstance(a_, ast.arg):
+                binds[a_.arg] = binds.get(a_.arg, 0) + 1
+        for n_ in ast.walk(fn):
+            if isinstance(n_, ast.Name) and isinstance(n_.ctx, (ast.Store, ast.Del)):
+                binds[n_.id] = binds.get(n_.id, 0) + 1
+            elif isinstance(n_, ast.arg) and n_ not in list(ast.walk(fn.args)):
+                binds[n_.arg] = binds.get(n_.arg, 0) + 1
+        for i, st in enumerate(list(fn.body)):
+            if not (isinstance(st, ast.Assign) and len(st.targets) == 1 and isinstance(st.targets[0], ast.Name) and isinstance(st.value, ast.Tuple)
+                    and st.value.elts and not any(isinstance(e, ast.Starred) for e in st.value.elts)):
+                continue
+            T = st.targets[0].id
+            if binds.get(T, 0) != 1:
+                continue
+            uses = [n_ for n_ in ast.walk(fn) if isinstance(n_, ast.Name) and n_.id == T and n_ is not st.targets[0]]
+            starred = [c for c in ast.walk(fn) if isinstance(c, ast.Call) for a in c.args if isinstance(a, ast.Starred) and isinstance(a.value, ast.Name) and a.value.id == T]
+            nstar = sum(1 for c in ast.walk(fn) if isinstance(c, ast.Call) for a in c.args if isinstance(a, ast.Starred) and isinstance(a.value, ast.Name) and a.value.id == T)
+            if not uses or len(uses) != nstar:
+                continue
+            # every use must come after the definition (in source order) - nested functions are called later
+            if any(getattr(u, "lineno", 0) < st.lineno for u in uses):
+                continue
+            pre, names = [], []
+            ok = True
+            for k, e in enumerate(st.value.elts):
+                if isinstance(e, ast.Constant):
+                    names.append(e)
+                elif isinstance(e, ast.Name) and binds.get(e.id, 0) == 1:
+                    names.append(e)
+                elif isinstance(e, ast.Name):
+                    ok = False
+                    break
+                else:
+                    tmp = "__sa%d_%d" % (st.lineno, k)
+                    pre.append(ast.copy_location(ast.Assign(targets=[ast.Name(id=tmp, ctx=ast.Store())], value=e), st))
+                    names.append(ast.Name(id=tmp, ctx=ast.Load()))
+            if not ok:
+                continue
+            for c in starred:
+                new_args = []
+                for a in c.args:
+                    if isinstance(a, ast.Starred) and isinstance(a.value, ast.Name) and a.value.id == T:
+                        new_args.extend(ast.copy_location(copy.deepcopy(x), a) for x in names)
+                    else:
+                        new_args.append(a)
+                c.args = new_args
+            idx = fn.body.index(st)
+            fn.body[idx:idx + 1] = pre or ([ast.copy_location(ast.Pass(), st)] if len(fn.body) == 1 else [])
+            done += 1
+    if done:
+        ast.fix_missing_locations(tree)
+    return done
+
+
 def inline_new_helpers(tree: ast.Module, known_functions: Set[str], ref_locals: Optional[Dict[str, Set[str]]] = None) -> List[Tuple[str, str]]:
+    _expand_star_tuples(tree)
     inl = Inliner(tree, known_functions)
     inl.run()
     if _inline_local_predicates(tree, ref_locals):
